@@ -22,19 +22,40 @@ import time
 PROP = "C09"
 HERE = os.path.abspath(__file__)
 
-OBJECTIVES = [
-    # (minimize string, Coq objective, oracle key)
-    ("flops", "OFlops", ("flops", None)),
-    ("max", "OMax", ("max", None)),
-    ("size", "OSize", ("size", None)),
-    ("write", "OWrite", ("write", None)),
-    ("combo", "(OCombo 64%Z)", ("combo", 64)),
-    ("limit", "(OLimit 64%Z)", ("limit", 64)),
-    ("combo-2", "(OCombo 2%Z)", ("combo", 2)),
-    ("limit-3", "(OLimit 3%Z)", ("limit", 3)),
-    ("combo-256", "(OCombo 256%Z)", ("combo", 256)),
-    ("limit-1", "(OLimit 1%Z)", ("limit", 1)),
-]
+from fractions import Fraction
+import math
+import re as _re
+
+OBJ_STRINGS = ["flops", "max", "size", "write", "combo", "limit",
+               # custom integer weights
+               "combo-2", "limit-3", "combo-256", "limit-1", "combo-64.0",
+               # custom fractional weights (also < 1): the requested objective is evaluated exactly
+               "combo-0.5", "limit-2.5", "limit-3.5", "combo-1.5", "combo-0.25", "limit-7.75", "limit-0.5",
+               "combo-2.75", "limit-1.5"]
+
+
+def mk_obj(string):
+    """(minimize string, Coq objective, oracle key, den): a custom weight k is kept exactly as
+    digits / 10^fractional digits = num/den; the Coq model works with scores scaled by den"""
+    if string in ("flops", "max", "size", "write"):
+        return (string, "O" + string.capitalize(), (string, None), 1)
+    m = _re.fullmatch(r"(combo|limit)-*((?:\d+\.?\d*)?)", string)
+    kind, fac = m.groups()
+    if not fac:
+        return (string, "(O%s 64%%Z)" % kind.capitalize(), (kind, Fraction(64)), 1)
+    ip, _, fp = fac.partition(".")
+    numr, den = int(ip + fp), 10 ** len(fp)
+    return (string, "(O%sQ %d%%Z %d%%Z)" % (kind.capitalize(), numr, den), (kind, Fraction(numr, den)), den)
+
+
+_OBJ4 = [mk_obj(x) for x in OBJ_STRINGS]
+OBJECTIVES = [(a, b, c) for a, b, c, d in _OBJ4]
+DEN = {a: d for a, b, c, d in _OBJ4}
+FRACTIONAL = [a for a, b, c, d in _OBJ4 if c[1] is not None and c[1].denominator != 1]
+LCD = 1
+for _a, _b, _c, _d in _OBJ4:
+    if _c[1] is not None:
+        LCD = LCD * _c[1].denominator // math.gcd(LCD, _c[1].denominator)
 CAPS = [1, 2, 3, 5, 17, 100, 4096, 10 ** 6, 10 ** 30]
 FUEL = 400
 
@@ -80,6 +101,11 @@ class SpecNet:
         return flops, size, not (a & b)
 
 
+def _unscale(keys, vals):
+    """the enumerators work with integers: weighted objectives are scaled by LCD there"""
+    return {k: (Fraction(v, LCD) if k[1] is not None else v) for k, v in zip(keys, vals)}
+
+
 def objective_values(steps, factors):
     """steps: list of (flops, size); returns dict objective-key -> value"""
     v = {
@@ -94,7 +120,11 @@ def objective_values(steps, factors):
     return v
 
 
-FACTORS = sorted({k for _, _, (w, k) in OBJECTIVES if k is not None})
+FACTORS = sorted({k for _, _, (w, k) in OBJECTIVES if k is not None}
+                 | {Fraction(math.floor(k)) for _, _, (w, k) in OBJECTIVES if k is not None})
+
+
+IFACTORS = [(k, int(k * LCD)) for k in FACTORS]
 
 
 def path_steps(spec, n, ssa_path, allow_single=False):
@@ -139,9 +169,9 @@ def enumerate_minima(spec, n):
     def stepvals(L, R):
         f, s, o = spec.step(L, R)
         d = {("flops", None): f, ("max", None): f, ("size", None): s, ("write", None): s}
-        for k in FACTORS:
-            d[("combo", k)] = f + k * s
-            d[("limit", k)] = max(f, k * s)
+        for k, ki in IFACTORS:            # integers: scaled by LCD, unscaled at the end
+            d[("combo", k)] = LCD * f + ki * s
+            d[("limit", k)] = max(LCD * f, ki * s)
         return d, o
 
     def trees(S):
@@ -172,8 +202,7 @@ def enumerate_minima(spec, n):
         best_all = val if best_all is None else tuple(map(min, best_all, val))
         if free:
             best_free = val if best_free is None else tuple(map(min, best_free, val))
-    return (count, dict(zip(keys, best_all)),
-            None if best_free is None else dict(zip(keys, best_free)))
+    return (count, _unscale(keys, best_all), None if best_free is None else _unscale(keys, best_free))
 
 
 def _enum_job(net):
@@ -463,9 +492,9 @@ def mm_outer_minima(spec, n):
             B = frozenset(S) - A
             f, s, o = spec.step(A, B)
             d = {("flops", None): f, ("max", None): f, ("size", None): s, ("write", None): s}
-            for kf in FACTORS:
-                d[("combo", kf)] = f + kf * s
-                d[("limit", kf)] = max(f, kf * s)
+            for kf, ki in IFACTORS:
+                d[("combo", kf)] = LCD * f + ki * s
+                d[("limit", kf)] = max(LCD * f, ki * s)
             svt = tuple(d[q] for q in keys)
             mm = o and len(A) >= 2 and len(B) >= 2
             tb = list(trees(B))
@@ -479,7 +508,7 @@ def mm_outer_minima(spec, n):
         best_all = val if best_all is None else tuple(map(min, best_all, val))
         if nomm:
             best_nomm = val if best_nomm is None else tuple(map(min, best_nomm, val))
-    return dict(zip(keys, best_all)), dict(zip(keys, best_nomm))
+    return _unscale(keys, best_all), _unscale(keys, best_nomm)
 
 
 def directed_arms_nets(rng, want, tries=60):
@@ -494,6 +523,55 @@ def directed_arms_nets(rng, want, tries=60):
             continue
         ba, bn = mm_outer_minima(SpecNet(inputs, output, sd), len(inputs))
         gap = [k for k in ba if ba[k] < bn[k]]
+        if gap:
+            out.append(((inputs, output, sd), gap))
+    return out
+
+
+def directed_frac_nets(rng, want, tries=400):
+    """[(net, [fractional objective strings with a strict gap])]: precondition networks on which, for a
+    fractional weight k, every tree that is optimal for floor(k) is NOT optimal for k (so a finder that
+    truncates the weight returns a non-optimal tree)"""
+    keys = list(objective_values([], FACTORS))
+    sums = [k for k in keys if k[0] in ("flops", "write", "combo", "limit")]
+    fr = [(a, c) for a, b, c in OBJECTIVES if a in FRACTIONAL]
+    out = []
+    for _ in range(tries):
+        if len(out) >= want:
+            break
+        n = rng.choice([4, 5, 5, 6])
+        inputs, output, sd = gen_precond_net(rng, n)
+        sd = {k: rng.choice(rng.choice([[2, 3], [2, 3, 4, 5], [2, 3, 5, 7, 11], [1, 2, 3, 4], [2, 4, 8]])) for k in sd}
+        spec = SpecNet(inputs, output, sd)
+
+        def trees(S):
+            S = sorted(S)
+            if len(S) == 1:
+                yield tuple(0 for _ in keys)
+                return
+            first, rest = S[0], S[1:]
+            for msk in range(0, 2 ** len(rest) - 1):
+                A = frozenset([first] + [rest[b] for b in range(len(rest)) if msk >> b & 1])
+                B = frozenset(S) - A
+                f, sz, _ = spec.step(A, B)
+                d = {("flops", None): f, ("max", None): f, ("size", None): sz, ("write", None): sz}
+                for kf, ki in IFACTORS:
+                    d[("combo", kf)] = LCD * f + ki * sz
+                    d[("limit", kf)] = max(LCD * f, ki * sz)
+                svt = tuple(d[q] for q in keys)
+                tb = list(trees(B))
+                for va in trees(A):
+                    for vb in tb:
+                        yield tuple((va[q] + vb[q] + svt[q]) if keys[q] in sums else max(va[q], vb[q], svt[q])
+                                    for q in range(len(keys)))
+        vs = list(trees(frozenset(range(n))))
+        gap = []
+        for mini, (kind, k) in fr:
+            qk = keys.index((kind, k))
+            qf = keys.index((kind, Fraction(math.floor(k))))
+            mf = min(v[qf] for v in vs)
+            if min(v[qk] for v in vs if v[qf] == mf) > min(v[qk] for v in vs):
+                gap.append(mini)
         if gap:
             out.append(((inputs, output, sd), gap))
     return out
@@ -602,6 +680,20 @@ def worker_main():
                 after = (dict(cp.nodes), {k: list(v) for k, v in cp.edges.items()}, cp.ssa)
                 res["simplify_noop"] = bool(before == after and not cp.ssa_path)
                 res["groups_after"] = [list(g) for g in cp.subgraphs()]
+            elif kind == "parsefn":
+                import functools
+                from fractions import Fraction as _F
+                res["parsed"] = []
+                for st in job["strings"]:
+                    try:
+                        f = pb.parse_minimize_for_optimal.__wrapped__(st)
+                        if isinstance(f, functools.partial):
+                            fac = _F(f.keywords["factor"])
+                            res["parsed"].append([st, f.func.__name__, [fac.numerator, fac.denominator]])
+                        else:
+                            res["parsed"].append([st, f.__name__, None])
+                    except ValueError:
+                        res["parsed"].append([st, None, None])
             elif kind == "parse":
                 from cotengra.scoring import get_score_fn
                 s = get_score_fn(job["minimize"]).get_dynamic_programming_minimize()
@@ -650,13 +742,13 @@ def run_worker(jobs, nproc=8, timeout=1500):
 
 
 # ---------------------------------------------------------------------------
-def num(x):
-    """scores may be floats when a custom factor is given ('combo-2' -> 2.0)"""
-    if isinstance(x, float):
-        if x != int(x):
-            raise ValueError("non-integral score %r" % (x,))
-        return int(x)
-    return int(x)
+def zsc(mini, x):
+    """a score of the run with objective string `mini` (int, or float when a custom factor is given),
+    exactly, scaled by the model's denominator"""
+    v = Fraction(x) * DEN[mini]
+    if v.denominator != 1:
+        raise ValueError("score %r of %s is not a multiple of 1/%d" % (x, mini, DEN[mini]))
+    return int(v)
 
 
 def run(ctx):
@@ -690,7 +782,7 @@ def run(ctx):
                      "cap": rng.choice(CAPS), "search_outer": rng.random() < 0.5,
                      "trace": 1500 if c % 2 == 0 else 0, "net": kindnet, "cobj": cobj, "timeout": 15})
     # K2 + oracle: end to end on precondition networks
-    n_net = max(12, int(ctx.n(24, 170) * scale))
+    n_net = max(12, int(ctx.n(18, 150) * scale))
     nets = []
     directed = directed_nets(rng, ctx.n(3, 12))
     dlist = [(k, net) for k, v in sorted(directed.items()) for net in v]
@@ -709,7 +801,7 @@ def run(ctx):
         nets.append((inputs, output, sd))
         combos = [(o, so) for o in range(len(OBJECTIVES)) for so in (False, True)]
         # the six named objectives x both search_outer always; custom factors sampled
-        chosen = [cb for cb in combos if cb[0] < 6] + rng.sample([cb for cb in combos if cb[0] >= 6], 3)
+        chosen = [cb for cb in combos if cb[0] < 6] + rng.sample([cb for cb in combos if cb[0] >= 6], 5)
         for (oi, so) in chosen:
             caps = [2, rng.choice([1, 3, 5, 17]), rng.choice([100, 4096, 10 ** 6, 10 ** 30])]
             if n >= 8:
@@ -761,6 +853,44 @@ def run(ctx):
         # intermediates would pass unnoticed
         ctx.fail("generator floor: no generated case has an optimum that contains an outer product between two "
                  "multi-tensor intermediates (search_outer=True)", {"arms_networks": len(arms)}, found_input=False)
+    # directed: networks on which, for a fractional weight k, NO tree optimal for floor(k) is optimal for k
+    frac = directed_frac_nets(rng, ctx.n(4, 12))
+    n_frac_strict = 0
+    for (net, gap) in frac:
+        inputs, output, sd = net
+        c = len(nets)
+        nets.append(net)
+        ctx.count("directed_fractional_nets")
+        for oi, (mini, cobj, okey) in enumerate(OBJECTIVES):
+            if mini not in FRACTIONAL:
+                continue
+            strict = mini in gap
+            if strict:
+                n_frac_strict += 1
+                ctx.count("floor_k_optimum_differs[%s]" % mini)
+            for so in (False, True):
+                for cap in ((1, 2, 10 ** 6) if strict else (2,)):
+                    jobs.append({"id": "e%d_%d_%d_%d" % (c, oi, so, cap), "kind": "e2e", "net": c,
+                                 "inputs": [list(t) for t in inputs], "output": list(output), "size_dict": sd,
+                                 "minimize": mini, "cap": cap, "search_outer": so, "oi": oi,
+                                 "entry": rng.choice(["function", "class", "call"]), "timeout": 30})
+    if n_frac_strict == 0:
+        ctx.fail("generator floor: no generated case where the optimum for floor(k) differs from the optimum for a "
+                 "fractional weight k", {"fractional_networks": len(frac)}, found_input=False)
+    # K4: the parser on every objective string used, on documented / adversarial forms and on random strings
+    parse_strings = list(OBJ_STRINGS) + [
+        "combo-", "combo--5", "combo5", "limit--2.50", "combo7.", "limit-007.50", "combo-0.0", "limit-0",
+        "combo=64", "combo-.5", "combo-1.2.3", "combo-1e3", "combo- 2", "flops-3", "size-2", "write-", "max-2",
+        "maxx", "", "combos", "lim", "limit-2.5x", "combo-2.5-", "COMBO", "flops ", "write-0.5"]
+    for _ in range(ctx.n(60, 400)):
+        parse_strings.append(rng.choice(["flops", "size", "write", "max", "combo", "limit", "combo", "limit", "comb"])
+                             + "-" * rng.choice([0, 1, 1, 1, 2])
+                             + rng.choice(["", "%d" % rng.randint(0, 300), "%d.%d" % (rng.randint(0, 20), rng.randint(0, 999)),
+                                           "%d." % rng.randint(0, 9), "0.%02d" % rng.randint(0, 99), ".%d" % rng.randint(1, 9),
+                                           "%d.%d.%d" % (1, 2, 3), "%de%d" % (2, 3)]))
+    parse_strings = [x for k, x in enumerate(parse_strings) if x not in parse_strings[:k]]
+    jobs.append({"id": "parsefn", "kind": "parsefn", "inputs": [], "output": [], "size_dict": {},
+                 "strings": parse_strings, "timeout": 60})
     # informational only: networks OUTSIDE the precondition (the property does not apply; never judged)
     info_nets = []
     for c in range(max(5, int(ctx.n(40, 300) * scale))):
@@ -859,8 +989,8 @@ def run(ctx):
             ctx.count("info_outside_precondition:not_optimal")
             ctx.count("info_not_optimal[%s]" % tag)
             if len(ctx.notes) < 8:
-                ctx.notes.append("outside the precondition (not judged): %s minimize=%s search_outer=True cost %d, "
-                                 "minimum over all trees %d, net %r -> %r %r"
+                ctx.notes.append("outside the precondition (not judged): %s minimize=%s search_outer=True cost %s, "
+                                 "minimum over all trees %s, net %r -> %r %r"
                                  % (tag, job["minimize"], got, best_all[okey], inputs, output, sd))
 
     cases, recs = [], []
@@ -907,7 +1037,7 @@ def run(ctx):
             if best_all[okey] < best_free[okey]:
                 ctx.count("outer_product_strictly_better")
             if got != want:
-                ctx.fail("path of optimize_optimal is not optimal: cost %d, minimum over %s trees %d"
+                ctx.fail("path of optimize_optimal is not optimal: cost %s, minimum over %s trees %s"
                          % (got, "all" if so else "outer-product-free", want), rec)
                 continue
             if not so and outer:
@@ -919,14 +1049,15 @@ def run(ctx):
         # ---- K2: the model on the same call
         netl = gen.net_lit(inputs, output, sd)
         pl = coq([(int(a), int(b)) for a, b in path])
-        lhs = "optimize_optimal %s %s %s %d%%nat (%d)%%Z" % (netl, cobj, coq(bool(so)), FUEL, job["cap"])
-        rhs = "(Some (%s, %s))" % (coq(Z(got)), pl)
+        gz = Z(zsc(mini, got))
+        lhs = "optimize_optimal %s %s %s %d%%nat (%d)%%Z" % (netl, cobj, coq(bool(so)), FUEL, job["cap"] * DEN[mini])
+        rhs = "(Some (%s, %s))" % (coq(gz), pl)
         cases.append((job["id"], lhs, rhs))
         recs.append(rec)
         if job["cap"] == 2:
             # the model of the public entry point (init ; simplify ; subgraphs ; DP ; replay)
-            lhsf = "optimize_optimal_full nil %s %s %s %d%%nat (%d)%%Z" % (netl, cobj, coq(bool(so)), FUEL, job["cap"])
-            rhsf = "(Some (%s, %s))" % (coq(Z(got)), coq([[int(a), int(b)] for a, b in path]))
+            lhsf = "optimize_optimal_full nil %s %s %s %d%%nat (%d)%%Z" % (netl, cobj, coq(bool(so)), FUEL, job["cap"] * DEN[mini])
+            rhsf = "(Some (%s, %s))" % (coq(gz), coq([[int(a), int(b)] for a, b in path]))
             cases.append((job["id"] + "_full", lhsf, rhsf))
             recs.append(dict(rec, what="optimize_optimal_full (model of the public entry point)"))
         # ---- Coq spec on the returned tree, and the enumerated optimum inside Coq
@@ -940,14 +1071,14 @@ def run(ctx):
             lhs2 = ("let p := %s in (tscore (p_nodes p) (p_app p) (p_sizes p) %s %s, "
                     "(admissible (p_nodes p) (p_app p) %s %s, (wf_procb (p_nodes p) (p_app p) (p_sizes p), "
                     "full_treeb %d %s)))" % (P, cobj, tr, coq(bool(so)), tr, n, tr))
-            rhs2 = "(%s, (true, (true, true)))" % coq(Z(got))
+            rhs2 = "(%s, (true, (true, true)))" % coq(gz)
             cases.append((job["id"] + "_spec", lhs2, rhs2))
             recs.append(dict(rec, what="Coq spec score / admissibility of the returned tree"))
             # brute_min inside Coq costs ~1.5 s for n=6 and ~17 s for n=7: all configurations up to
             # n=5 (quick) / n=6 (thorough), a few per network at the enumeration limit
             if n < enum_limit or (n == enum_limit and (job["oi"] + 2 * int(so) + c) % ctx.n(4, 10) == 0):
                 lhs3 = "let p := %s in brute_min (p_nodes p) (p_app p) (p_sizes p) %s %s" % (P, cobj, coq(bool(so)))
-                rhs3 = "(Some %s)" % coq(Z(got))
+                rhs3 = "(Some %s)" % coq(gz)
                 cases.append((job["id"] + "_brute", lhs3, rhs3))
                 recs.append(dict(rec, what="Coq enumerated minimum over all_trees"))
                 ctx.count("coq_brute_min_n%d" % n)
@@ -961,6 +1092,45 @@ def run(ctx):
         ctx.fail("model and implementation disagree (optimum, path, spec score or enumerated minimum)",
                  rec, found_input=False)
     ctx.log("K2 done: %d cases, %d failing (%.1fs)" % (len(cases), len(failing), time.time() - t0))
+
+    # ------------------------------------------------------------------ K4: the parser
+    r = results["parsefn"]
+    if r.get("error"):
+        ctx.fail("parse_minimize_for_optimal probe failed: %s" % r["error"], {"strings": parse_strings}, found_input=False)
+    else:
+        KIND = {"compute_con_cost_flops": 0, "compute_con_cost_max": 1, "compute_con_cost_size": 2,
+                "compute_con_cost_write": 3, "compute_con_cost_combo": 4, "compute_con_cost_limit": 5}
+        pcases, precs = [], []
+        for st, fname, fac in r["parsed"]:
+            if not all(ch in "abcdefghijklmnopqrstuvwxyzABCDEFGHIJKLMNOPQRSTUVWXYZ0123456789.-= " for ch in st):
+                continue
+            lit = '"%s"%%string' % st
+            if fname is None:
+                pcases.append((st, "match parse_minimize %s with None => true | Some _ => false end" % lit, "true"))
+                ctx.count("K4_rejected")
+            else:
+                pq = fac if fac is not None else [1, 1]
+                pcases.append((st, "parse_agrees %s %d%%nat (%d)%%Z (%d)%%Z" % (lit, KIND[fname], pq[0], pq[1]), "true"))
+                ctx.count("K4_accepted")
+                if fac is not None and fac[1] != 1:
+                    ctx.count("K4_fractional_weight")
+            precs.append({"string": st, "impl": [fname, fac]})
+        for (mini, cobj, okey) in OBJECTIVES:
+            # the constructor literal used in K1/K2 for this string is what the parser model yields
+            pcases.append((mini, "parse_minimize \"%s\"%%string" % mini, "(Some %s)" % cobj))
+            precs.append({"string": mini, "literal": cobj})
+        failing = ctx.coq_cases("c09_parse", ["OptimalProc"], pcases, chunk=200, timeout=600,
+                                prelude="Require Import String.\nImport Ctg.Base.\nInstance Eqb_objective : Eqb objective := fun a b => "
+                                        "match a, b with OFlops, OFlops | OMax, OMax | OSize, OSize | OWrite, OWrite => true "
+                                        "| OCombo x, OCombo y | OLimit x, OLimit y => Z.eqb x y "
+                                        "| OComboQ x u, OComboQ y v | OLimitQ x u, OLimitQ y v => Z.eqb x y && Z.eqb u v "
+                                        "| _, _ => false end.")
+        for idx, label, val in failing[:3]:
+            rec = dict(precs[idx]) if idx < len(precs) else {}
+            rec["model_value"] = val
+            rec["correspondence"] = "Model/Optimal.v parse_minimize vs parse_minimize_for_optimal (kind and exact weight)"
+            ctx.fail("model and implementation disagree on parsing the objective string %r" % label, rec, found_input=False)
+        ctx.log("K4 done: %d strings, %d failing (%.1fs)" % (len(pcases), len(failing), time.time() - t0))
 
     # ------------------------------------------------------------------ K3
     cases, recs = [], []
@@ -1032,12 +1202,13 @@ def run(ctx):
             common = "%s %s %s %s %s %s %d%%nat %d%%nat (%d)%%Z" % (
                 coq([int(a) for a in app]), coq([Z(s) for s in szs]), job["cobj"],
                 coq(bool(job["search_outer"])), coq([int(w) for w in g["where"]]),
-                "[" + "; ".join(legs_lit(l) for l in g["wlegs"]) + "]", g["ssa0"], FUEL, job["cap"])
+                "[" + "; ".join(legs_lit(l) for l in g["wlegs"]) + "]", g["ssa0"], FUEL, job["cap"] * DEN[job["minimize"]])
             pairs = [(int(a), int(b)) for a, b in g["pairs"]]
             try:
                 if "trace" in g:
-                    ev = [([(int(a), int(b)) for a, b in e[0]], Z(num(e[1])), Z(num(e[2])),
-                           [(int(a), int(b)) for a, b in e[3]], Z(num(e[4]))) for e in g["trace"]]
+                    mn = job["minimize"]
+                    ev = [([(int(a), int(b)) for a, b in e[0]], Z(zsc(mn, e[1])), Z(zsc(mn, e[2])),
+                           [(int(a), int(b)) for a, b in e[3]], Z(zsc(mn, e[4]))) for e in g["trace"]]
                     lhs = ("match optimal_connected_tr %s with Some r => Some (fst (snd r), snd (snd (snd r))) "
                            "| None => None end" % common)
                     rhs = "(Some (%s, %s))" % (coq(pairs) if pairs else "(@nil (nat*nat))",
